@@ -801,7 +801,191 @@ def cell_exhaustive(cell):
     return out.result()
 
 
+def cell_registration(cell):
+    """Registration histories: random declaration TREES (classes with fields and methods, functions with
+    parameters, locals, locals under blocks / conditionals, functions declared inside function bodies)
+    registered through ast.Program.add_declaration / update_children -- the entry point by which every
+    transformation re-registers the declarations it visited -- in random order and repeatedly.  The expected
+    scoped map is computed from the tree by this function alone (a declaration lives in the namespace of the
+    class / function that lexically encloses it); compared through the public queries of the real Context:
+    current-namespace entries per kind (names, values by identity), the union along the path, get_decl,
+    the reverse lookup of every declaration, and the program's top-level declaration list."""
+    from vf import boot
+    boot.light(shim=False)
+    from src.ir import ast, context as ctxmod
+    from src.ir import kotlin_types as kt
+    out = common.CellOut()
+    G = ast.GLOBAL_NAMESPACE
+    for index in range(cell['lo'], cell['hi']):
+        rng = random.Random(common.h32(cell['seed'], 'reg', index))
+        counter = [0]
+        few = rng.random() < 0.5            # few names: collisions between local and outer declarations
+
+        def name(prefix):
+            counter[0] += 1
+            if few:
+                return '%s%d' % (prefix, rng.randint(0, 3))
+            return '%s%d' % (prefix, counter[0])
+        expected = {}                      # ns -> kind -> {name: obj}  (last registration wins)
+        order = []                         # (ns, kind, name, obj) in registration order of ONE add_declaration
+
+        def reg(ns, kind, n, obj, sink):
+            sink.append((ns, kind, n, obj))
+
+        def mk_func(depth, sink_self):
+            """-> (FunctionDeclaration, [registrations relative to the function's enclosing namespace])"""
+            fname = name('f')
+            params = [ast.ParameterDeclaration(name('p'), kt.Integer) for _ in range(rng.randint(0, 2))]
+            inner = []       # (relative-ns-suffix, kind, name, obj)
+            body_items = []
+
+            def local_items(d):
+                items = []
+                for _ in range(rng.randint(0, 3)):
+                    r = rng.random()
+                    if r < 0.45:
+                        v = ast.VariableDeclaration(name('v'), ast.IntegerConstant(1, kt.Integer),
+                                                    var_type=kt.Integer, inferred_type=kt.Integer)
+                        inner.append(((), 'vars', v.name, v))
+                        items.append(v)
+                    elif r < 0.75 and depth < 2:
+                        g, sub = mk_func(depth + 1, None)
+                        inner.append(((), 'funcs', g.name, g))
+                        for suffix, k2, n2, o2 in sub:          # suffixes of `sub` start with g's own name
+                            inner.append((suffix, k2, n2, o2))
+                        items.append(g)
+                    elif r < 0.9 and d < 2:
+                        items.append(ast.Conditional(ast.BooleanConstant('true'),
+                                                     ast.Block(local_items(d + 1), is_func_block=False),
+                                                     ast.Block(local_items(d + 1), is_func_block=False), kt.Unit))
+                    elif d < 2:
+                        items.append(ast.Block(local_items(d + 1), is_func_block=False))
+                return items
+            body_items = local_items(0)
+            body = ast.Block(body_items) if rng.random() < 0.9 else ast.IntegerConstant(1, kt.Integer)
+            if not isinstance(body, ast.Block):
+                inner[:] = []
+            fn = ast.FunctionDeclaration(fname, params, kt.Unit, body, ast.FunctionDeclaration.FUNCTION)
+            regs = [((fname,), 'vars', p.name, p) for p in params]
+            regs += [((fname,) + suffix, k2, n2, o2) for suffix, k2, n2, o2 in inner]
+            return fn, regs
+
+        tops = []
+        for _ in range(rng.randint(1, 4)):
+            r = rng.random()
+            if r < 0.5:
+                fn, regs = mk_func(0, None)
+                tops.append((fn, 'funcs', regs))
+            elif r < 0.8:
+                fields = [ast.FieldDeclaration(name('x'), kt.Integer) for _ in range(rng.randint(0, 2))]
+                meths, regs = [], []
+                cname = name('C')
+                for _ in range(rng.randint(0, 2)):
+                    m, sub = mk_func(1, None)
+                    m.func_type = ast.FunctionDeclaration.CLASS_METHOD
+                    meths.append(m)
+                    regs.append(((cname,), 'funcs', m.name, m))
+                    regs += [((cname,) + suffix, k2, n2, o2) for suffix, k2, n2, o2 in sub]
+                regs = [((cname,), 'vars', f.name, f) for f in fields] + regs
+                cls = ast.ClassDeclaration(cname, [], ast.ClassDeclaration.REGULAR, fields=fields, functions=meths)
+                tops.append((cls, 'classes', regs))
+            else:
+                v = ast.VariableDeclaration(name('g'), ast.IntegerConstant(1, kt.Integer), var_type=kt.Integer,
+                                            inferred_type=kt.Integer)
+                tops.append((v, 'vars', []))
+        # top-level names are unique in a program (the generator draws identifiers without replacement)
+        seen = set()
+        tops = [t for t in tops if not (t[0].name in seen or seen.add(t[0].name))]
+        program = ast.Program(ctxmod.Context(), 'kotlin')
+        schedule = list(tops)
+        for _ in range(rng.randint(0, 3)):          # re-registration, as update_children does
+            schedule.append(rng.choice(tops))
+        if rng.random() < 0.3:
+            rng.shuffle(schedule)
+        via_update = rng.random() < 0.3
+        try:
+            for d, kind, regs in schedule:
+                program.add_declaration(d)
+            if via_update:
+                # what a DefaultVisitorUpdate does after visiting the program: the same children, re-registered
+                program.update_children(list(program.children()))
+        except Exception as e:
+            out.violation({'rule': 'registration-raised', 'exc': type(e).__name__},
+                          'Program registration raised %s: %s' % (type(e).__name__, e), {'index': index})
+            continue
+        for d, kind, regs in schedule:
+            expected.setdefault(G, {}).setdefault(kind, {})[d.name] = d
+            # body statements are pushed on a stack and popped: registration order within one function is
+            # not the textual order, so only the LAST registration per (namespace, kind, name) of a single
+            # declaration is order-dependent; judge a name only when it is registered once per namespace/kind
+            for suffix, k2, n2, o2 in regs:
+                expected.setdefault(G + suffix, {}).setdefault(k2, {}).setdefault(n2, [])
+                lst = expected[G + suffix][k2][n2]
+                if not any(o is o2 for o in lst):
+                    lst.append(o2)
+        out.ev('registration-histories')
+        ctx = program.context
+        bad = None
+        nss = set(expected) | set(ctx._context.keys())
+        for ns in sorted(nss, key=lambda x: (len(x), x)):
+            for kind in ('funcs', 'vars', 'classes'):
+                got = getattr(ctx, GETTER[kind])(ns, only_current=True)
+                exp = expected.get(ns, {}).get(kind, {})
+                out.ev('q:registration-current')
+                if set(got) != set(exp):
+                    bad = ('current-namespace names', ns, kind, sorted(got), sorted(exp))
+                    break
+                for n2, objs in exp.items():
+                    cands = objs if isinstance(objs, list) else [objs]
+                    if not any(got[n2] is o for o in cands):
+                        bad = ('current-namespace value', ns, kind, n2, None)
+                        break
+                    if len(cands) == 1:
+                        out.ev('q:registration-reverse')
+                        back = ctx.get_namespace(cands[0])
+                        # the same object may legitimately be registered once only; its namespace is ns
+                        if back != ns and not any(
+                                any(o is cands[0] for o in (v if isinstance(v, list) else [v]))
+                                for ns2, kinds in expected.items() if ns2 != ns
+                                for v in kinds.get(kind, {}).values()):
+                            bad = ('reverse lookup', ns, kind, n2, back)
+                            break
+                        out.ev('q:registration-get_decl')
+                        r = ctxmod.get_decl(ctx, ns, n2)
+                        if r is None or r[1] is not got[n2] and kind == 'vars' and n2 not in expected.get(ns, {}).get('funcs', {}):
+                            if r is None:
+                                bad = ('get_decl finds nothing', ns, kind, n2, None)
+                                break
+                if bad:
+                    break
+            if bad:
+                break
+        if not bad:
+            top_got = list(program.get_declarations().keys())
+            top_exp = []
+            for d, kind, regs in schedule:
+                if d.name not in top_exp:
+                    top_exp.append(d.name)
+            out.ev('q:registration-toplevel')
+            if top_got != top_exp:
+                bad = ('top-level declarations', G, 'decls', top_got, top_exp)
+        if bad:
+            what, ns, kind, a, b = bad
+            out.violation({'rule': 'registration', 'query': what, 'kind': kind, 'depth': min(len(ns), 4)},
+                          'declarations registered through Program.%s: %s of %s / %s is %s, expected %s' % (
+                              'update_children' if via_update else 'add_declaration', what, ns, kind, a, b),
+                          {'index': index, 'seed': cell['seed'], 'family': 'registration',
+                           'program': [str(t[0])[:300] for t in tops][:4]})
+        else:
+            out.ok(('registration', tuple(sorted((len(ns), k, len(v)) for ns, kinds in expected.items()
+                                                  for k, v in kinds.items()))),
+                   nontrivial=any(len(ns) >= 3 for ns in expected))
+    return out.result()
+
+
 def cell_any(cell):
+    if cell.get('family') == 'registration':
+        return cell_registration(cell)
     return cell_exhaustive(cell) if 'kinds' in cell else cell_random(cell)
 
 
@@ -832,6 +1016,7 @@ FLOORS = {
         'q:get_decl': 220000, 'q:get_lambda': 220000, 'q:module.get_decl': 600000,
         'q:get_namespace': 180000, 'q:find_namespaces': 270000,
         'q:get_declarations_in': 94000, 'q:get_namespaces_decls': 510000,
+        'registration-histories': 700, 'q:registration-current': 8000, 'q:registration-reverse': 2500,
     },
 }
 
@@ -857,7 +1042,9 @@ def main(prop, tier):
             ecells.append({'kinds': list(kinds), 'ns': lay, 'L': L})
     tag = 'C16-%s-%d' % (tier, os.getpid())
     # one pool; the long exhaustive cells (L = 4) first, short ones last
-    allc = ([c for c in ecells if c['L'] >= 4] + cells + [c for c in ecells if c['L'] < 4])
+    nreg = 4000 if tier == 'thorough' else 800
+    rcells = [{'family': 'registration', 'seed': seed, 'lo': a, 'hi': min(nreg, a + 200)} for a in range(0, nreg, 200)]
+    allc = ([c for c in ecells if c['L'] >= 4] + cells + rcells + [c for c in ecells if c['L'] < 4])
     res = common.run_cells('vf.labs.ctxlab:cell_any', allc, tag, timeout=1500)
     agg.add_cells(res)
     for k, v in FLOORS['quick'].items():
